@@ -415,7 +415,17 @@ impl RuntimeData {
             debug_assert!(!matches!(obj.marker, GcMarker::Black));
             match &mut obj.body {
                 CaoLangObjectBody::Table(obj) => {
-                    for (key, value) in obj.iter() {
+                    // `CaoLangTable::iter` skips entries whose key can not be found again (a
+                    // table that was changed after it was used as a key, a function value), but
+                    // the ordered key list and the buckets still reference those objects: walk
+                    // both directly
+                    for key in obj.keys() {
+                        unsafe {
+                            checked_enqueue_value!(key);
+                        }
+                    }
+                    let map: &crate::collections::hash_map::CaoHashMap<Value, Value, _> = obj;
+                    for (key, value) in map.iter() {
                         unsafe {
                             checked_enqueue_value!(key);
                             checked_enqueue_value!(value);
